@@ -148,6 +148,7 @@ fn judge(c: &Canon, a: &Tbl, b: &Tbl, op: &str, locus: &str, case: &str, out: &m
 impl UnitRunner for C18 {
   fn unit(&mut self, payload: &str, unit: u64, out: &mut WorkerOut) {
     if payload == "contexts" { return context_unit(unit, out); }
+    if payload == "same" { return self.same_schema_unit(unit, out); }
     // payload: "" | "L<layout>" | "P<lhs perm><rhs perm>" (column declaration orders: 0 as listed, 1 reversed, 2 rotated; layout 0)
     let li = payload.strip_prefix('L').and_then(|x| x.parse::<usize>().ok()).unwrap_or(0);
     let (lp, rp) = match payload.strip_prefix('P') { Some(x) if x.len() == 2 => (x[0..1].parse::<usize>().unwrap_or(0), x[1..2].parse::<usize>().unwrap_or(0)), _ => (0, 0) };
@@ -204,7 +205,65 @@ impl UnitRunner for C18 {
   }
 }
 
+/// every table over a schema with 1..maxrows rows whose cells all come from two values per column (keys {1,2}, payloads {10,20}):
+/// wholly duplicated rows occur, which the row-unique payloads of `tables` exclude
+pub fn dup_tables(schema: &[&'static str], maxrows: usize) -> Vec<Tbl> {
+  let nc = schema.len();
+  let mut out = vec![];
+  for r in 1..=maxrows {
+    for m in 0..(1usize << (nc * r)) {
+      let rows = (0..r).map(|ri| schema.iter().enumerate().map(|(ci, c)| { let b = ((m >> (ri * nc + ci)) & 1) as i64; if is_key(c) { 1 + b } else { 10 * (1 + b) } }).collect()).collect();
+      out.push(Tbl { cols: schema.to_vec(), rows });
+    }
+  }
+  out
+}
+pub const SAME_STRIDE: u64 = 8192;
+
 impl C18 {
+  fn same_rows(&self) -> usize { self.tier.pick(3, 4) }
+  /// Operands of one schema (every column shared), with wholly duplicated rows: a table joined with itself, with an equal copy, with its
+  /// rows reversed, without its last row and with its first row repeated. A row that occurs m times on the left and n times on the
+  /// right yields m*n rows of an inner join.
+  fn same_schema_unit(&mut self, unit: u64, out: &mut WorkerOut) {
+    let (g, ai) = ((unit / SAME_STRIDE) as usize, (unit % SAME_STRIDE) as usize);
+    let (schema, lay) = (LSCHEMAS[g / LAYOUTS.len()], LAYOUTS[g % LAYOUTS.len()]);
+    let ts = dup_tables(schema, self.same_rows());
+    if ai >= ts.len() { return; }
+    let a = &ts[ai];
+    let mut rev = a.clone(); rev.rows.reverse();
+    let mut short = a.clone(); short.rows.pop();
+    let mut longer = a.clone(); longer.rows.push(a.rows[0].clone());
+    let mut variants: Vec<(&str, &str, Tbl)> = vec![("itself", "A", a.clone()), ("equal-copy", "B", a.clone()), ("rows-reversed", "C", rev), ("first-row-repeated", "D", longer)];
+    if !short.rows.is_empty() { variants.push(("last-row-dropped", "F", short)); }
+    let mut s = Session::new();
+    let da = format!("A := {}", literal_in(a, lay));
+    if !s.run(&da).is_value() { out.count("table_literal_rejected"); return; }
+    let mut setup = da.clone();
+    for (_, nm, t) in variants.iter().skip(1) { let d = format!("{} := {}", nm, literal_in(t, lay)); if !s.run(&d).is_value() { out.count("table_literal_rejected"); return; } setup.push_str("; "); setup.push_str(&d); }
+    let dup = { let mut r = a.rows.clone(); r.sort(); r.dedup(); r.len() < a.rows.len() };
+    for (vn, nm, t) in &variants {
+      for (n, (sym, word, op)) in OPS.iter().enumerate() {
+        for (l, r, lt, rt, dir) in [("A", *nm, a, t, "lhs"), (*nm, "A", t, a, "rhs")] {
+          if *vn == "itself" && dir == "rhs" { continue; }
+          if *vn == "equal-copy" && dir == "rhs" { continue; }
+          let locus = format!("{}:same-schema:{}{}:{}{}", op, vn, if *vn == "itself" || *vn == "equal-copy" { String::new() } else { format!("-as-{}", if dir == "lhs" { "rhs" } else { "lhs" }) }, if dup { "duplicated-rows" } else { "distinct-rows" }, if lay == LAYOUTS[0] { String::new() } else { format!(":keys-{}-payload-{}", lay.0, lay.1) });
+          for (form, text) in [("symbol", format!("{} {} {}", l, sym, r)), ("word", format!("{}({}, {})", word, l, r))] {
+            out.evaluations += 1;
+            let name = format!("J{}{}{}{}", nm, n, dir, form);
+            let o = s.run(&format!("{} := {}", name, text));
+            let case = format!("{}; J := {}", setup, text);
+            match &o {
+              Outcome::Value(_) => { if let Some(c) = s.get(&name) { out.nontrivial += 1; judge(&c, lt, rt, op, &locus, &case, out); } }
+              Outcome::Panic(m) => out.fail(format!("C18|panic|{}", locus), case, m.clone()),
+              _ => { out.nontrivial += 1; out.fail(format!("C18|join-rejected|{}", locus), case, o.short()); }
+            }
+          }
+        }
+      }
+    }
+    if ai == 20 && g == 0 { out.sample(json!({"A": literal(a), "A ⋈ A": s.get("JA0lhssymbol").map(|c| c.short())})); }
+  }
   /// rows by scalar index, index vector and logical mask
   fn row_selection(&mut self, unit: u64, out: &mut WorkerOut) {
     let nrows = 1 + unit as usize;
@@ -261,8 +320,8 @@ impl Check for C18 {
   fn level(&self) -> &'static str { "exploration" }
   fn unit_budget(&self, _t: Tier) -> Duration { Duration::from_secs(120) }
   fn drive(&mut self, tier: Tier, cfg: &PoolCfg, rep: &mut Report) {
-    rep.rule = format!("9 schema pairs (lhs columns from {{k,j,a}}, rhs from {{k,j,b}}: 0, 1 or 2 shared names) x every lhs table x every rhs table with 1..{} rows (1..3 quick / 1..5 thorough when the schema has at most one key column; key cells over {{1,2}}, row-unique payloads, so duplicates and non-matching keys all occur) x 5 column-kind layouts (keys u64 / u8 / string / bool / f64 with payloads u64 / f64 / u64 / string / u8) x inner, left/right/full outer, left semi, left anti x symbol and word form, plus 0-row operands produced by an anti-join; \
-      row selection on tables of 1..{} rows by every scalar index 0..n+1, every index pair, every index vector of length 3 (and 4 for n = 4), every mask of length n-1..n+1; the reference is a nested-loop join on lists of rows compared as multisets keyed by column name incl. which columns are optional; evaluations = statements; non-trivial = judged statements", self.maxrows(), tier.pick(4, 5));
+    rep.rule = format!("9 schema pairs (lhs columns from {{k,j,a}}, rhs from {{k,j,b}}: 0, 1 or 2 shared names) x every lhs table x every rhs table with 1..{} rows (1..3 quick / 1..5 thorough when the schema has at most one key column; key cells over {{1,2}}, row-unique payloads, so duplicates and non-matching keys all occur) x 5 column-kind layouts (keys u64 / u8 / string / bool / f64 with payloads u64 / f64 / u64 / string / u8) x inner, left/right/full outer, left semi, left anti x symbol and word form, plus 0-row operands produced by an anti-join; operands of one schema (every column shared; 3 schemas x 5 layouts x every table of 1..{} rows with cells over two values per column, so wholly duplicated rows occur) joined with themselves, an equal copy, their rows reversed, their first row repeated and their last row dropped, either way round; \
+      row selection on tables of 1..{} rows by every scalar index 0..n+1, every index pair, every index vector of length 3 (and 4 for n = 4), every mask of length n-1..n+1; the reference is a nested-loop join on lists of rows compared as multisets keyed by column name incl. which columns are optional; evaluations = statements; non-trivial = judged statements", self.maxrows(), self.same_rows(), tier.pick(4, 5));
     rep.assumptions = vec!["row order of a join, column order and shared columns of different kinds are not judged".into()];
     rep.cov("bounds", json!({"schema_pairs": 9, "max_rows": self.maxrows()}));
     let mut jobs = range_jobs("", 9 * 256, 1);
@@ -274,6 +333,11 @@ impl Check for C18 {
     for lp in 0..3 { for rp in 0..3 { if (lp, rp) != (0, 0) { jobs.extend(base.iter().map(|j| Job { payload: format!("P{}{}", lp, rp), lo: j.lo, hi: j.hi })); } } }
     jobs.extend((0..5).map(|u| Job { payload: String::new(), lo: 9 * 256 + u, hi: 9 * 256 + u + 1 }));
     jobs.extend(range_jobs("contexts", 3, 1));
+    // operands of one schema with wholly duplicated rows (self joins, equal copies, near copies)
+    for g in 0..LSCHEMAS.len() * LAYOUTS.len() {
+      let n = dup_tables(LSCHEMAS[g / LAYOUTS.len()], self.same_rows()).len() as u64;
+      jobs.extend((0..n).map(|ai| Job { payload: "same".into(), lo: g as u64 * SAME_STRIDE + ai, hi: g as u64 * SAME_STRIDE + ai + 1 }));
+    }
     drive_ranges(cfg, rep, jobs);
     if rep.out.nontrivial < 1000 { rep.vacuity.push("too few judged joins".into()); }
   }
